@@ -13,7 +13,11 @@ import (
 
 func init() {
 	register(&PropertyCheck{ID: "C05", Level: "other", Run: checkC05, Canaries: []Canary{
+		{Name: "property-loop-builds-a-string-by-concatenation", Rule: "R5.2", Where: "(*buffer).getAny", Edits: []Edit{{"buffer.go", "\tfor b.i < end {\n\t\tb.get(&id)\n\t\t// first failure stops the parsing\n\t\tif b.err != nil {\n\t\t\treturn\n\t\t}\n\t\tfield, hasField := fields[id]\n\t\tif hasField {\n\t\t\tb.get(field())\n\t\t\tcontinue\n\t\t}\n\t\tswitch id {\n\t\tcase UserProperty:\n\t\t\tvar p UserProp\n\t\t\tb.get(&p)\n\t\t\taddProp(p)\n\n\t\tcase SubscriptionID:\n\t\t\tvar sub vbint\n\t\t\tb.get(&sub)\n\t\t\tif b.addSubscriptionID != nil {\n\t\t\t\tb.addSubscriptionID(uint32(sub))\n\t\t\t}\n\n\t\tdefault:\n\t\t\tb.err = fmt.Errorf(\"unknown property id 0x%02x\", id)", "\tvar seen string // identifiers read so far, for the error message\n\tfor b.i < end {\n\t\tb.get(&id)\n\t\t// first failure stops the parsing\n\t\tif b.err != nil {\n\t\t\treturn\n\t\t}\n\t\tseen += fmt.Sprintf(\" %02x\", byte(id))\n\t\tfield, hasField := fields[id]\n\t\tif hasField {\n\t\t\tb.get(field())\n\t\t\tcontinue\n\t\t}\n\t\tswitch id {\n\t\tcase UserProperty:\n\t\t\tvar p UserProp\n\t\t\tb.get(&p)\n\t\t\taddProp(p)\n\n\t\tcase SubscriptionID:\n\t\t\tvar sub vbint\n\t\t\tb.get(&sub)\n\t\t\tif b.addSubscriptionID != nil {\n\t\t\t\tb.addSubscriptionID(uint32(sub))\n\t\t\t}\n\n\t\tdefault:\n\t\t\tb.err = fmt.Errorf(\"unknown property id 0x%02x, read so far:%s\", id, seen)"}}},
 		{Name: "reason-code-count-taken-from-the-wire", Rule: "R5.1", Where: "(*SubAck).UnmarshalBinary", Edits: []Edit{{"suback.go", "\tp.reasonCodes = make([]uint8, len(data)-b.i)\n\n\tfor i, _ := range p.reasonCodes {\n\t\tvar v wuint8\n\t\tb.get(&v)\n\t\tp.reasonCodes[i] = uint8(v)\n\t}", "\tvar count wuint16\n\tb.get(&count)\n\tfor k := 0; k < int(count); k++ {\n\t\tp.reasonCodes = append(p.reasonCodes, 0)\n\t}"}}},
+		{Name: "loop-counted-by-the-length-of-the-list-it-appends-to", Silent: true, Edits: []Edit{{"suback.go", "\tp.reasonCodes = make([]uint8, len(data)-b.i)\n\n\tfor i, _ := range p.reasonCodes {\n\t\tvar v wuint8\n\t\tb.get(&v)\n\t\tp.reasonCodes[i] = uint8(v)\n\t}", "\tleft := len(data) - b.i\n\tcodes := make([]uint8, 0, left)\n\tfor len(codes) < left {\n\t\tvar v wuint8\n\t\tb.get(&v)\n\t\tcodes = append(codes, uint8(v))\n\t}\n\tp.reasonCodes = codes"}}},
+		{Name: "append-loop-that-does-not-always-append", Rule: "R5.1", Where: "(*SubAck).UnmarshalBinary", Edits: []Edit{{"suback.go", "\tp.reasonCodes = make([]uint8, len(data)-b.i)\n\n\tfor i, _ := range p.reasonCodes {\n\t\tvar v wuint8\n\t\tb.get(&v)\n\t\tp.reasonCodes[i] = uint8(v)\n\t}", "\tleft := len(data) - b.i\n\tcodes := make([]uint8, 0, left)\n\tfor len(codes) < left {\n\t\tvar v wuint8\n\t\tb.get(&v)\n\t\tif v != 0 {\n\t\t\tcodes = append(codes, uint8(v))\n\t\t}\n\t}\n\tp.reasonCodes = codes"}}},
+		{Name: "append-loop-counted-by-a-number-from-the-wire", Rule: "R5.1", Where: "(*SubAck).UnmarshalBinary", Edits: []Edit{{"suback.go", "\tp.reasonCodes = make([]uint8, len(data)-b.i)\n\n\tfor i, _ := range p.reasonCodes {\n\t\tvar v wuint8\n\t\tb.get(&v)\n\t\tp.reasonCodes[i] = uint8(v)\n\t}", "\tvar count wuint16\n\tb.get(&count)\n\tvar codes []uint8\n\tfor len(codes) < int(count) {\n\t\tvar v wuint8\n\t\tb.get(&v)\n\t\tcodes = append(codes, uint8(v))\n\t}\n\tp.reasonCodes = codes"}}},
 		{Name: "map-presized-from-the-property-length", Rule: "R5.2", Where: "(*buffer).getAny#makemap", Edits: []Edit{{"buffer.go", "\tend := b.i + int(propLen)\n", "\tend := b.i + int(propLen)\n\tseen := make(map[Ident]bool, propLen/2)\n\t_ = seen\n"}}},
 		{Name: "pair-decoder-copies-the-rest-of-the-frame", Rule: "R5.2", Where: "(*UserProp).UnmarshalBinary", Edits: []Edit{{"wiretypes.go", "func (v *UserProp) UnmarshalBinary(data []byte) error {\n", "func (v *UserProp) UnmarshalBinary(data []byte) error {\n\town := make([]byte, len(data))\n\tcopy(own, data)\n\tdata = own\n"}}},
 		{Name: "subscribe-loop-ignores-error", Rule: "R5.1", Where: "(*Subscribe).UnmarshalBinary", Edits: []Edit{{"subscribe.go", "\t\tb.get(&f.options)\n\t\tif b.err != nil {\n\t\t\tbreak\n\t\t}\n", "\t\tb.get(&f.options)\n"}}},
@@ -241,6 +245,30 @@ func checkC05(p *Prog, c *Check) {
 			}
 			for _, ins := range b.Instrs {
 				switch x := ins.(type) {
+				case *ssa.BinOp:
+					// a string that grows by concatenation on every turn of a loop is copied in full each time: work
+					// and allocation quadratic in the number of iterations (`seen += fmt.Sprintf(" %02x", id)`)
+					if x.Op != token.ADD || !isStringT(x.Type().Underlying()) {
+						continue
+					}
+					lp := loopContaining(fn, b)
+					if lp == nil {
+						continue
+					}
+					grows := false
+					for _, o := range []ssa.Value{x.X, x.Y} {
+						if ph, ok := o.(*ssa.Phi); ok && lp.Has(ph.Block()) {
+							for i, e := range ph.Edges {
+								if lp.Has(ph.Block().Preds[i]) && dependsOn(e, func(v ssa.Value) bool { return v == ssa.Value(x) }, map[ssa.Value]bool{}) {
+									grows = true
+								}
+							}
+						}
+					}
+					if grows {
+						ia++
+						c.Bad("R5.2", fmt.Sprintf("%s#concat%d", qname(fn), ia), posOf(p, ins), "a string is extended by concatenation on every iteration of a loop on the decode path: each step copies what was built so far, so the work is quadratic in the number of items")
+					}
 				case *ssa.MakeSlice:
 					nalloc++
 					ia++
